@@ -442,11 +442,18 @@ impl IoLoop {
                     self.inner.write_to_stream(stream)?;
                 }
                 if event.readiness().is_readable() {
-                    self.inner.read_from_stream(
+                    let result = self.inner.read_from_stream(
                         stream,
                         &mut self.frame_buffer,
                         |inner, frame| state.process(inner, frame),
-                    )?;
+                    );
+                    match (result, &state) {
+                        // The server has confirmed our close; it is free to hang up right
+                        // away, possibly in this very read. The close handshake is complete,
+                        // so whatever the socket does afterwards is not an error.
+                        (Err(_), ConnectionState::ClientClosed) => (),
+                        (result, _) => result?,
+                    }
                 }
             }
             HEARTBEAT => self.inner.process_heartbeat_timers()?,
